@@ -645,6 +645,7 @@ RENAME_ROUTES = [
     (CLS + 'DimArray.set_axis', 'a.set_axis(name=...)'),
     ('dimarray.dataset.Dataset.set_axis', 'ds.set_axis(name=...)'),
     ('dimarray.dataset.Dataset.dims.setter', 'ds.dims = (...)'),
+    ('dimarray.dataset.Dataset.rename_axes', 'ds.rename_axes({old: new})'),
 ]
 
 
@@ -662,6 +663,13 @@ def rule_rename_routes(ctx, rid='R4'):
             # len(set(names)) != len(names)   |   newname in <names of the array>
             if a[0] == 'cmp' and a[1] == '==' and 'len(' in sh and 'set(' in sh:
                 return 'eq'
+            if a[0] == 'cmp' and a[1] in ('<', '<=') and 'len(' in T.show(a[2]) and 'len(' in T.show(a[3]):
+                # len(set(names)) < len(names)  (duplicates iff true)   |   len(names) <= len(set(names))  (duplicates iff false)
+                l_set, r_set = 'set(' in T.show(a[2]), 'set(' in T.show(a[3])
+                if a[1] == '<' and l_set and not r_set:
+                    return 'lt'
+                if a[1] == '<=' and r_set and not l_set:
+                    return 'eq'
             if a[0] == 'cmp' and a[1] == 'in' and ('name' in T.show(a[2]) or a[2][0] == 'param') and ('dims' in T.show(a[3]) or 'name' in T.show(a[3])):
                 return 'in'
             return None
@@ -671,7 +679,7 @@ def rule_rename_routes(ctx, rid='R4'):
                 continue
             for a, pol in p.guards:
                 k = is_dup_test(a)
-                if (k == 'eq' and pol is False) or (k == 'in' and pol is True):
+                if (k == 'eq' and pol is False) or (k in ('in', 'lt') and pol is True):
                     rejects = True
         # a route that hands the renaming over to another route of this table (on the same object) is as good as that one
         others = dict((r.rsplit('.', 1)[-1], r) for r, _ in RENAME_ROUTES if r != q and not r.endswith('.setter'))
